@@ -314,6 +314,11 @@ func (f *fn) assigned(n ast.Node) map[string]bool {
 		if se, ok := e.(*ast.SliceExpr); ok {
 			e = unparen(se.X)
 		}
+		if id, ok := e.(*ast.Ident); ok && f.slice && f.names[f.pi.info.Uses[id]] == "" {
+			if v, isVar := f.pi.info.Uses[id].(*types.Var); isVar && v.Pkg() != nil && v.Parent() != v.Pkg().Scope() {
+				f.free(e, v) // a statement slice assigns a local it does not define
+			}
+		}
 		if id, ok := e.(*ast.Ident); ok && f.names[f.pi.info.Uses[id]] != "" {
 			res[f.names[f.pi.info.Uses[id]]] = true
 		} else if name, _, ok := f.place(e); ok {
